@@ -9,8 +9,19 @@
 (*    manager of the current leader (sm); only the record is replicated;   *)
 (*  - KeepAlive re-arms the timer; time is an abstract tick counter; a     *)
 (*    timer fires at the first tick at or after its deadline;              *)
-(*  - a new leader (LeaderChange) re-arms every session it finds in the DB *)
-(*    with a full timeout (sessionManager.Initialize);                     *)
+(*  - a new leader (LeaderChange) is a node that holds the whole log but   *)
+(*    whose DB may lag it by the last `lag` entries (it acknowledged them  *)
+(*    as a follower and was never told a commit offset covering them).     *)
+(*    BecomeLeader replays that tail into the DB (applyAllEntriesIntoDB)   *)
+(*    and THEN re-arms every session it finds in the DB with a full        *)
+(*    timeout (sessionManager.Initialize); the order is explicit here      *)
+(*    (constant InitFirst = the other order, refuted by TLC);              *)
+(*  - Fill(m): a client populates the shard with m plain records "a-NNN"   *)
+(*    (25 per request) so that later range deletes cover more keys than    *)
+(*    the threshold at which db.go:applyDeleteRange switches from          *)
+(*    individual deletes to one range tombstone (DeleteRangeThreshold =    *)
+(*    100), with session-owned keys before ("a") and after ("a/b", "b")    *)
+(*    the block;                                                           *)
 (*  - cleanup (expiry or CloseSession) is TWO steps, as in session.delete: *)
 (*    the session's shadow keys are listed (ListBlock), then a second      *)
 (*    write deletes the listed records, the session record and the shadow  *)
@@ -28,11 +39,17 @@
 (*               id -> [kind : "expire" | "close", keys : listed keys]     *)
 (*        tmo  : timeout in ticks stored in the session record, id -> t    *)
 (*        beat : history: tick of creation / last heartbeat that counted / *)
-(*               last leader change, id -> tick  (only used by Lifetime)]  *)
+(*               last leader change, id -> tick  (only used by Lifetime)   *)
+(*        back : the last (at most MaxLag) entries of the log, oldest      *)
+(*               first: [st : DB state BEFORE the entry, req, off, ts] -   *)
+(*               what a node whose DB lags its log has not applied yet]    *)
 (***************************************************************************)
 EXTENDS OxiaDb
 
-CONSTANT SkipEmptyKey   \* TRUE: cleanup skips a listed record whose key is empty (session.go before the fix)
+CONSTANTS SkipEmptyKey,  \* TRUE: cleanup skips a listed record whose key is empty (session.go before the fix)
+          InitFirst,     \* TRUE: a new leader initialises its session manager BEFORE it has replayed the tail of
+                         \*       its log into its DB (mutant; the code does it after: applyAllEntriesIntoDB)
+          MaxLag         \* by how many entries the DB of a newly elected node may lag its log
 
 Ts(i) == 1000 + 10 * i
 
@@ -42,16 +59,20 @@ FnDrop(f, D) == [x \in DOMAIN f \ D |-> f[x]] @@ EmptyFn
 NoReq == [puts |-> <<>>, dels |-> <<>>, rngs |-> <<>>]
 NoRes == [puts |-> <<>>, dels |-> <<>>, rngs |-> <<>>]
 
-Sys0 == [st |-> InitState, n |-> 0, now |-> 0, sm |-> EmptyFn, pend |-> EmptyFn, tmo |-> EmptyFn, beat |-> EmptyFn]
+Sys0 == [st |-> InitState, n |-> 0, now |-> 0, sm |-> EmptyFn, pend |-> EmptyFn, tmo |-> EmptyFn, beat |-> EmptyFn,
+         back |-> <<>>]
 
 SessPut(id) == [key |-> SessKey(id), val |-> -1, exp |-> NoExp, sess |-> NoSess, cid |-> "", pkey |-> FALSE,
                 deltas |-> <<>>, idx |-> <<>>]
 
-\* the write path of the leader: next offset, timestamp of the entry
+\* the write path of the leader: next offset, timestamp of the entry; the entry is appended to the log
+\* (of which the last MaxLag entries are kept, each with the DB state it was applied to)
+Push(b, x) == LET q == b \o <<x>> IN IF Len(q) > MaxLag THEN SubSeq(q, Len(q) - MaxLag + 1, Len(q)) ELSE q
 WriteAt(sys, req) ==
     LET ap == Apply(sys.st, req, sys.n, Ts(sys.n))
-    IN [sys |-> [sys EXCEPT !.st = ap.s, !.n = @ + 1], off |-> sys.n, ts |-> Ts(sys.n), req |-> req,
-        res |-> ap.res, nf |-> NfSeq(ap.nf)]
+    IN [sys |-> [sys EXCEPT !.st = ap.s, !.n = @ + 1,
+                            !.back = Push(@, [st |-> sys.st, req |-> req, off |-> sys.n, ts |-> Ts(sys.n)])],
+        off |-> sys.n, ts |-> Ts(sys.n), req |-> req, res |-> ap.res, nf |-> NfSeq(ap.nf)]
 NoWrite(sys) == [sys |-> sys, off |-> -1, ts |-> 0, req |-> NoReq, res |-> NoRes, nf |-> <<>>]
 
 -----------------------------------------------------------------------------
@@ -121,12 +142,44 @@ DoCleanup(sys, s) ==
 \* a request of some client
 DoWrite(sys, req) == WriteAt(sys, req) @@ [out |-> "OK", s |-> -1]
 
-\* a new leader (here: the controller is closed and re-created on the same log and DB, NewTerm, BecomeLeader):
-\* Initialize re-arms every session found in the DB with a full timeout
-LiveSessions(sys) == {s \in DOMAIN sys.tmo : SessKey(s) \in DOMAIN sys.st.kv}
-DoLeaderChange(sys) ==
-    LET live == LiveSessions(sys)
-    IN NoWrite([sys EXCEPT !.sm = [s \in live |-> [dl |-> sys.now + sys.tmo[s]]] @@ EmptyFn,
+\* a client populates the shard: m plain records "a-001" .. "a-m", 25 per request (ceil(m / 25) offsets).
+\* They sort after "a" and before every key with a slash and before "b".
+FillKey(i) == <<97, DASH, 48 + (i \div 100), 48 + ((i \div 10) % 10), 48 + (i % 10)>>
+FillPut(i) == [key |-> FillKey(i), val |-> i, exp |-> NoExp, sess |-> NoSess, cid |-> "", pkey |-> FALSE,
+               deltas |-> <<>>, idx |-> <<>>]
+RECURSIVE FillFrom(_, _, _)
+FillFrom(sys, lo, m) ==
+    IF lo > m THEN sys
+    ELSE LET hi == IF lo + 24 < m THEN lo + 24 ELSE m
+             w  == WriteAt(sys, [NoReq EXCEPT !.puts = [i \in 1..(hi - lo + 1) |-> FillPut(lo + i - 1)]])
+         IN IF w.sys = w.sys THEN FillFrom(w.sys, hi + 1, m) ELSE sys
+DoFill(sys, m) == NoWrite(FillFrom(sys, 1, m)) @@ [out |-> "OK", s |-> -1]
+
+(* A new leader.  The elected node holds the whole log (it acknowledged every entry the old leader      *)
+(* acknowledged to a client) but its DB is at offset n-1-lag: the old leader went away before it could  *)
+(* announce a commit offset covering the last `lag` entries.  lag = 0: the controller is closed and     *)
+(* re-created on the same log and DB.  leader_controller.go:BecomeLeader in the order of the code:      *)
+(*   1. NewSessionManager                    - no session is armed                                      *)
+(*   2. applyAllEntriesIntoDB                - the entries past the DB's commit offset are applied      *)
+(*   3. sessionManager.Initialize            - every session record found in the DB is armed with a     *)
+(*                                             full timeout from now                                    *)
+(* InitFirst swaps 2 and 3.  That the replayed DB equals the old leader's is not assumed: the next      *)
+(* state takes the replayed DB and SurviveLeaderChange demands that it is the same.                     *)
+LagOK(sys, lag)  == lag >= 0 /\ lag <= Len(sys.back)
+DbAt(sys, lag)   == IF lag = 0 THEN sys.st ELSE sys.back[Len(sys.back) - lag + 1].st
+TailOf(sys, lag) == SubSeq(sys.back, Len(sys.back) - lag + 1, Len(sys.back))
+RECURSIVE ReplayTail(_, _, _)
+ReplayTail(db, es, i) == IF i > Len(es) THEN db
+                         ELSE LET nx == Apply(db, es[i].req, es[i].off, es[i].ts).s
+                              IN IF nx = nx THEN ReplayTail(nx, es, i + 1) ELSE db
+SessionsIn(sys, db) == {s \in DOMAIN sys.tmo : SessKey(s) \in DOMAIN db.kv}
+LiveSessions(sys)   == SessionsIn(sys, sys.st)
+DoLeaderChange(sys, lag) ==
+    LET db0  == DbAt(sys, lag)                          \* the DB of the elected node
+        db1  == ReplayTail(db0, TailOf(sys, lag), 1)    \* ... after applyAllEntriesIntoDB
+        live == SessionsIn(sys, IF InitFirst THEN db0 ELSE db1)
+    IN NoWrite([sys EXCEPT !.st = db1,
+                           !.sm = [s \in live |-> [dl |-> sys.now + sys.tmo[s]]] @@ EmptyFn,
                            !.beat = [s \in live |-> sys.now] @@ @]) @@ [out |-> "OK", s |-> -1]
 LeaderChangeEnabled(sys) == DOMAIN sys.pend = {}
 
@@ -148,11 +201,32 @@ Race(sys, req) ==
 RECURSIVE SortInts(_)
 SortInts(S) == IF S = {} THEN <<>> ELSE LET m == CHOOSE x \in S : \A y \in S : x <= y IN <<m>> \o SortInts(S \ {m})
 
+\* the observation of OxiaDb!Observe, with the records sorted by a merge sort: OxiaDb!SortKeys takes the minimum
+\* n times (n^3 key comparisons), which is what a populated shard (100 records) cannot afford per step.
+\* (SessionsMC!ObsSame: FastObserve = Observe, checked in every state of the sess-steps* graphs and sess-thorough-c.)
+RECURSIVE SetToSeq(_)
+SetToSeq(S) == IF S = {} THEN <<>> ELSE LET x == CHOOSE y \in S : TRUE IN <<x>> \o SetToSeq(S \ {x})
+RECURSIVE MergeFrom(_, _, _, _)
+MergeFrom(a, i, b, j) ==
+    IF i > Len(a) THEN SubSeq(b, j, Len(b))
+    ELSE IF j > Len(b) THEN SubSeq(a, i, Len(a))
+    ELSE IF KeyLe(a[i], b[j]) THEN <<a[i]>> \o MergeFrom(a, i + 1, b, j) ELSE <<b[j]>> \o MergeFrom(a, i, b, j + 1)
+RECURSIVE MSort(_)
+MSort(q) == IF Len(q) <= 1 THEN q
+            ELSE LET h == Len(q) \div 2
+                     l == MSort(SubSeq(q, 1, h))
+                     r == MSort(SubSeq(q, h + 1, Len(q)))
+                 IN IF l = l /\ r = r THEN MergeFrom(l, 1, r, 1) ELSE q
+FastSortKeys(S) == MSort(SetToSeq(S))
+FastObserve(st) == LET ks == FastSortKeys(DOMAIN st.kv)
+                   IN [recs |-> [i \in 1..Len(ks) |-> RecOf(st.kv, ks[i])], idx |-> IdxKeys(st),
+                       shadow |-> ShadowKeys(st), lv |-> st.lastVer]
+
 ArmedSeq(sys) == LET ids == SortInts({s \in DOMAIN sys.sm : s \notin DOMAIN sys.pend})
                  IN [i \in 1..Len(ids) |-> [s |-> ids[i], dl |-> sys.sm[ids[i]].dl]]
 PendSeq(sys)  == LET ids == SortInts(DOMAIN sys.pend)
                  IN [i \in 1..Len(ids) |-> [s |-> ids[i], kind |-> sys.pend[ids[i]].kind, keys |-> sys.pend[ids[i]].keys]]
-SessObserve(sys) == Observe(sys.st) @@ [now |-> sys.now, armed |-> ArmedSeq(sys), pend |-> PendSeq(sys)]
+SessObserve(sys) == FastObserve(sys.st) @@ [now |-> sys.now, armed |-> ArmedSeq(sys), pend |-> PendSeq(sys)]
 
 -----------------------------------------------------------------------------
 (* The property (C14), as predicates of one step  sys --a--> sys2  where a carries the name  *)
@@ -215,10 +289,12 @@ Lifetime(sys, a, sys2) ==
           /\ \A s \in DOMAIN sys2.sm \ DOMAIN sys2.pend : sys2.now - sys2.beat[s] < sys2.tmo[s]
     /\ a.a # "Tick" => DOMAIN sys2.pend \ DOMAIN sys.pend \subseteq (IF a.a = "CloseBegin" THEN {a.s} ELSE {})
 
-\* sessions and their records survive a leader change; every live session is armed again
+\* sessions and their records survive a leader change - whatever part of the log the new leader still had
+\* to apply: its DB ends up equal to the old leader's, every live session is armed again (and only those)
 SurviveLeaderChange(sys, a, sys2) ==
     a.a = "LeaderChange" => /\ sys2.st = sys.st
                             /\ {s \in DOMAIN sys2.sm : s \notin DOMAIN sys2.pend} = LiveSessions(sys)
+                            /\ \A s \in LiveSessions(sys) : sys2.sm[s].dl = sys2.now + sys.tmo[s]
 
 \* calls that do not write leave the DB alone
 ReadOnlyCalls(sys, a, sys2) == a.a \in {"KeepAlive", "Tick", "CloseBegin", "LeaderChange"} => sys2.st = sys.st /\ sys2.n = sys.n
